@@ -120,6 +120,18 @@ partial def monitorLoop (h : IO.FS.Stream) (out : IO.FS.Stream) : IO Unit := do
             let extra := qs.filter (fun x => !(recs.map ("Q " ++ ·)).contains x)
             out.putStrLn s!"V {n} queryExact odd-address={queryOdd s0 q} code `{r}` ({qs.length} records) stored-state `{r'}` ({recs.length} records); missing {miss.take 2} extra {extra.take 2}"
             viol := viol + 1
+          -- the same listing computed from the primary records alone: a wrong index must show as a wrong answer
+          match q with
+          | .q qq =>
+            match querySpecRecs s0 qq with
+            | some spec =>
+              if r = "R ok" && qs ≠ spec.map ("Q " ++ ·) then
+                let miss := (spec.map ("Q " ++ ·)).filter (fun x => !qs.contains x)
+                let extra := qs.filter (fun x => !(spec.map ("Q " ++ ·)).contains x)
+                out.putStrLn s!"V {n} queryExact odd-address={queryOdd s0 q} answer differs from the stored primary records (the index it is read from is wrong); missing {miss.take 2} extra {extra.take 2}"
+                viol := viol + 1
+            | none => pure ()
+          | _ => pure ()
           pre := some s1
         | _, _, _ => out.putStrLn s!"P {n} cannot parse query"; viol := viol + 1
       else if (genOpOf opl).isSome then
